@@ -24,6 +24,11 @@ def programs(rnd, q):
                         orders.append(mixed)
                     for order in orders if (no and na) else [decl]:
                         progs.append({"opts": list(opts), "args": list(args), "order": order})
+    # applications whose only (or first) option is the one Cli.Version declares: it is an option like any other for the generated spec
+    V = {"names": "v version", "flag": True, "version": True}
+    for args in ([], ["X"], ["X", "Y"]):
+        progs.append({"opts": [V], "args": list(args), "order": ["o0"] + ["a%d" % j for j in range(len(args))]})
+    progs.append({"opts": [V, OPTS[2]], "args": ["X"], "order": ["o0", "o1", "a0"]})
     return progs
 
 
@@ -72,6 +77,9 @@ def run(tier, wd):
                 envs.append([rnd.choice(keys)])
             for env in envs:
                 members = [{"si": si, "env": env, "argv": list(line)}, {"si": si + 1, "env": env, "argv": list(line)}]
+                if rnd.random() < 0.25:
+                    for m_ in members:
+                        m_["posthelp"] = True      # after Run returned, the help is requested through PrintHelp
                 if rnd.random() < 0.3:
                     # the same spec-less command after it already ran (same application object)
                     members.append({"si": si, "env": env, "argv": list(line), "prerun": [[], list(line)]})
@@ -91,7 +99,8 @@ def run(tier, wd):
     for grp, pr, rs, v, classes in triples:
         if v == "ok":
             bad = [i for i, c in enumerate(classes) if c.startswith("violation")]
-            if bad and not any(p_["uncl"] for p_ in pr["preds"]):
+            has_version = any(o_.get("version") for o_ in progs[specs[grp["members"][0]["si"]]["prog"]]["opts"])
+            if bad and not any(p_["uncl"] for p_ in pr["preds"]) and not has_version:   # the version flag has no recording variable
                 v = "violation:%s (%s spec) -> %s" % (grp["members"][bad[0]]["argv"], "missing" if bad[0] == 0 else "explicit", classes[bad[0]])
             r0 = rs[0]
             if v == "ok" and r0.get("usage") is not None and r0.get("err"):
@@ -99,6 +108,11 @@ def run(tier, wd):
                 want = ("Usage: app " + usage_expect[grp["members"][0]["si"]]).rstrip()
                 if r0["usage"].rstrip() != want:
                     v = "violation:usage line of the spec-less command is %r, expected %r" % (r0["usage"], want)
+            if v == "ok" and grp["members"][0].get("posthelp") and not (r0.get("specerr") or r0.get("panic") or r0.get("hang") or r0.get("crash")):
+                usage_checked += 1
+                want = ("Usage: app " + usage_expect[grp["members"][0]["si"]]).rstrip()
+                if (r0.get("postusage") or "").rstrip() != want:
+                    v = "violation:after Run returned, PrintHelp of the spec-less command shows %r, expected %r" % (r0.get("postusage"), want)
         out.append((grp, pr, rs, v, classes))
     gc.finish_groups(rep, progs, specs, out,
                      "a group = one program (0-3 options out of -a/--aa, -b, -o/--out; 0-3 arguments out of X, Y, X1_ in every order; options declared first, "
